@@ -7,7 +7,10 @@ x {float32, float64} x {fixed-point, newton, linear} x (tol, kmax) in {(1e-5, 10
       every entry of sum_products and sum_product agrees with the reference: Bool exact,
       Viterbi within 1e-5, Real/Log within max(10*tol, 1e-4) (relative, absolute below 1) per cyclic
       SCC the nonterminal depends on (the per-SCC errors of an iterative method add up in a product)
-      -- OR a warning was issued by the call (budget exhausted, says so).
+      -- OR a warning was issued by the call (budget exhausted, says so).  Zero entries of the Real
+      semiring are compared with the same absolute tolerance (linear solves round).  When fixed-point
+      stops at tol=1e-5 outside that bound on a slowly converging grammar, "the error vanishes as tol
+      does" is decided directly: at tol 1e-7 (1e-6 in float32) the error must shrink >= 10x.
   linear clause  method='linear' on a grammar that is not linearly recursive raises ValueError;
                  on a linearly recursive one it obeys the value clause.
   An exception on a grammar of the class (other than that ValueError) is a violation.
@@ -164,11 +167,12 @@ def check_one(recipe, sname, dname, method, budget, info) -> Tuple[List[dict], D
     order = [x for comp in G.sccs(recipe) for x in comp]
     first_bad = None
     for x in order:
-        bad = G.compare_dense(dense[x], ref[x], sname, vtol * _n_cyclic_below(recipe, x))
+        bad = G.compare_dense(dense[x], ref[x], sname, vtol * _n_cyclic_below(recipe, x), real_zero_exact=False)
         if bad:
             first_bad = (x, bad)
             break
-    bad_start = G.compare_dense(z, ref[recipe["start"]], sname, vtol * _n_cyclic_below(recipe, recipe["start"]))
+    bad_start = G.compare_dense(z, ref[recipe["start"]], sname, vtol * _n_cyclic_below(recipe, recipe["start"]),
+                                real_zero_exact=False)
     if first_bad is None and not bad_start:
         bump("value-ok" + ("-but-warned" if warned else ""))
         return out, stats
@@ -182,6 +186,22 @@ def check_one(recipe, sname, dname, method, budget, info) -> Tuple[List[dict], D
         x, bad = recipe["start"], bad_start
         api, obs_t, exp_t = "sum_product", z, ref[x]
     idx, o, ex, kind = bad[0]
+    if (budget == "generous" and method == "fixed-point" and sname in ("Real", "Log")
+            and all(k == "wrong-value" and oo < ee for _, oo, ee, k in bad)):
+        # The stopping rule bounds the last step, not the error: on a slowly converging grammar the error
+        # at tol=1e-5 may exceed the concrete bound although it "vanishes as tol does".  Decide that clause
+        # directly: with a 100x smaller tol the error must shrink at least 10x (or fall within the bound).
+        tol2 = 1e-7 if dname == "float64" else 1e-6
+        d2, z2, wl2, exc2 = run_library(recipe, sname, dname, method, tol2, 20000)
+        if exc2 is None:
+            t2 = d2[x] if api == "sum_products" else z2
+            err1 = max(abs(oo - ee) for _, oo, ee, _k in bad)
+            bad2 = G.compare_dense(t2, exp_t, sname, 0.0, real_zero_exact=False)
+            err2 = max([abs(oo - ee) for _, oo, ee, k in bad2 if k == "wrong-value"] or [0.0])
+            if all(k == "wrong-value" for _, _o, _e, k in bad2) and (err2 <= err1 / 10 or wl2 or
+                    not G.compare_dense(t2, exp_t, sname, vtol * _n_cyclic_below(recipe, x), real_zero_exact=False)):
+                bump("slow-convergence:error-vanishes-with-tol")
+                return out, stats
     if kind == "wrong-value" and budget == "tight" and o < ex:     # stopped below the least fixed point
         kind = "unconverged-no-warning"
     clause = "sum_product.recursive.value_or_warning" if budget == "tight" else "sum_product.recursive.least_fixed_point"
